@@ -14,8 +14,23 @@ let parse_edit o =
       (buf, nat_of_int (int_of_string b), nat_of_int (int_of_string e))
   | _ -> (None, O, O)
 
+(* refusal logic: "Q f0 f1 .." / "G f0 f1 .." -- a table of buffers, slot i tagged i, flagged
+   modified iff fi = 1; answers "quit" / "stay <tag of the new current buffer>" resp. "refused" / "pass" *)
+let mk_buf i f =
+  let e = ebuf_open [n_of_int (65 + i); n_of_int 10] in
+  if f = "1" then run_dop e (DEdit (None, O, S O)) else e
+let tag e = match e.disk with (c :: _) :: _ -> int_of_n c - 65 | _ -> -1
+let do_quit fs =
+  let (t, q) = ec_quit false (List.mapi mk_buf fs) in
+  if q then pr "quit\n" else pr "stay %d\n" (match t with b :: _ -> tag b | [] -> -1)
+let do_guard fs =
+  let (_, r) = guard_current false (List.mapi mk_buf fs) in
+  pr "%s\n" (if r then "refused" else "pass")
+
 let () = iter_lines (fun l ->
   match words l with
+  | "Q" :: fs -> do_quit fs
+  | "G" :: fs -> do_guard fs
   | [] -> pr "\n"
   | init :: ops ->
       let lb = lbuf_saved (lbuf_edit lbuf_make (Some (bytes_of_hex init)) O O) true in
